@@ -128,6 +128,22 @@ def units(tier):
     return us
 
 
+def upper_keys(x):
+    if isinstance(x, dict):
+        return {(k if k.startswith("__") else k.upper()): upper_keys(v) for k, v in x.items()}
+    if isinstance(x, list):
+        return [upper_keys(v) for v in x]
+    return x
+
+
+def lower_keys(x):
+    if isinstance(x, dict):
+        return {k.lower(): lower_keys(v) for k, v in x.items()}
+    if isinstance(x, list):
+        return [lower_keys(v) for v in x]
+    return x
+
+
 def run_update(res, shard):
     import mappyfile
 
@@ -142,15 +158,20 @@ def run_update(res, shard):
                 R.add_outcome(res, "unspecified_patch_skipped")
                 continue
             for overwrite in (True, False):
-                for mapfile in (False, True):
-                    a1, a2 = mk(d1, mapfile), mk(d2, mapfile)
+                for mapfile in (False, True, "upper"):
+                    # "upper": d1 is a Mapfile dictionary (case-insensitive keys), the patch spells its keys in upper case
+                    a1, a2 = mk(d1, bool(mapfile)), (upper_keys(copy.deepcopy(d2)) if mapfile == "upper" else mk(d2, mapfile))
                     snap2 = D.typed(a2)
                     exp = ref_update(copy.deepcopy(d1), copy.deepcopy(d2), overwrite)
                     res["evals"] += 1
                     n += 1
                     try:
                         out = mappyfile.update(a1, a2, overwrite)
-                        ok = D.typed(D.plain(out)) == D.typed(exp) and out is a1 and D.typed(a2) == snap2
+                        got = D.plain(out)
+                        if mapfile == "upper":
+                            # sub-dictionaries created by update itself are plain dicts and keep the patch's spelling: compared with keys folded
+                            got = lower_keys(got)
+                        ok = D.typed(got) == D.typed(exp) and out is a1 and D.typed(a2) == snap2
                         why = "result %r, reference %r%s%s" % (D.plain(out), exp, "" if out is a1 else " (result is not d1)",
                                                              "" if D.typed(a2) == snap2 else " (d2 modified)")
                     except Exception as e:
